@@ -152,6 +152,8 @@ fn real_main() -> i32 {
         "sidwrap" => families::sidwrap(&a),
         "manysids" => families::manysids(&a),
         "earlyops" => families::earlyops(&a),
+        "cutwrite" => families::cutwrite(&a),
+        "crossid" => families::crossid(&a),
         "chunk" => families::chunk(&a),
         "fuzz" => families::fuzz(&a),
         "endings" => families::endings(&a),
